@@ -90,10 +90,17 @@ func astDigest(f *ast.File) string {
 
 // faultsRestore enumerates every failure position of an import-managed restore of build().
 func faultsRestore(build func() (*dst.File, map[string]string), names map[string]string, path string, expected int) []faultObs {
+	return faultsRestoreX(build, names, path, expected, false)
+}
+
+// extras: the restorers also restore the object graph (Restorer.Extras)
+func faultsRestoreX(build func() (*dst.File, map[string]string), names map[string]string, path string, expected int, extras bool) []faultObs {
 	clean := func() ([]byte, int, error) {
 		f, alias := build()
 		rr := &failingRR{inner: simple.New(names)}
-		fr := decorator.NewRestorerWithImports(path, rr).FileRestorer()
+		rst := decorator.NewRestorerWithImports(path, rr)
+		rst.Extras = extras
+		fr := rst.FileRestorer()
 		for k, v := range alias {
 			fr.Alias[k] = v
 		}
@@ -112,7 +119,9 @@ func faultsRestore(build func() (*dst.File, map[string]string), names map[string
 		before := treeDigest(f)
 		sentinel := fmt.Errorf("sentinel %d: %w", k, errInjected)
 		rr := &failingRR{inner: simple.New(names), k: k, err: sentinel}
-		fr := decorator.NewRestorerWithImports(path, rr).FileRestorer()
+		rst := decorator.NewRestorerWithImports(path, rr)
+		rst.Extras = extras
+		fr := rst.FileRestorer()
 		for kk, v := range alias {
 			fr.Alias[kk] = v
 		}
@@ -126,7 +135,9 @@ func faultsRestore(build func() (*dst.File, map[string]string), names map[string
 		o.OutBytes = buf.Len()
 		o.TreeSame = treeDigest(f) == before
 		// retry on the same tree with a working resolver and a fresh restorer
-		fr2 := decorator.NewRestorerWithImports(path, simple.New(names)).FileRestorer()
+		rst2 := decorator.NewRestorerWithImports(path, simple.New(names))
+		rst2.Extras = extras
+		fr2 := rst2.FileRestorer()
 		for kk, v := range alias {
 			fr2.Alias[kk] = v
 		}
@@ -479,6 +490,36 @@ func checkC17(c *Ctx) {
 		for _, o := range obs {
 			all = append(all, o)
 			keys = append(keys, fmt.Sprintf("restore|hand-built-%d|fail@%d", hi, o.FailAt))
+		}
+	}
+	// the object graph restored too (Extras), after a declaration was deleted that was the only user of an
+	// import: the declaration is still reachable through the file scope and is restored behind the file
+	for xi, xsrc := range []string{
+		"package main\n\nimport (\n\t\"fmt\"\n\t\"os\"\n)\n\nfunc helper() { fmt.Println() }\n\nfunc main() {\n\thelper()\n\tos.Exit(0)\n}\n",
+		"package main\n\nimport (\n\t\"bytes\"\n\t\"fmt\"\n\t\"os\"\n)\n\nvar gone = bytes.MinRead\n\nfunc main() {\n\tfmt.Println(gone, os.Args)\n}\n",
+	} {
+		xsrc := xsrc
+		build := func() (*dst.File, map[string]string) {
+			f, err := decorator.NewDecoratorWithImports(token.NewFileSet(), "main", goast.New()).Parse(xsrc)
+			if err != nil {
+				return nil, nil
+			}
+			// the first declaration behind the imports goes
+			f.Decls = append(f.Decls[:1:1], f.Decls[2:]...)
+			return f, nil
+		}
+		if f, _ := build(); f == nil {
+			c.Infra("extras source does not decorate")
+			return
+		}
+		obs := faultsRestoreX(build, map[string]string{"fmt": "fmt", "os": "os", "bytes": "bytes"}, "main", -1, true)
+		if len(obs) == 0 {
+			c.Infra(fmt.Sprintf("extras case %d does not restore without failures", xi))
+			return
+		}
+		for _, o := range obs {
+			all = append(all, o)
+			keys = append(keys, fmt.Sprintf("restore|extras-after-delete-%d|fail@%d", xi, o.FailAt))
 		}
 	}
 	// corpus files: decorate with goast, restore with failing name resolver; decorate with failing resolvers
